@@ -112,16 +112,81 @@ func callsParam(in ssa.Instruction, p *ssa.Parameter) (*ssa.Call, bool) {
 		return nil, false
 	}
 	v := call.Call.Value
-	if v == ssa.Value(p) {
+	// captured parameter: *cell where cell holds p
+	isP := func(v ssa.Value) bool {
+		if v == ssa.Value(p) {
+			return true
+		}
+		if u, ok := v.(*ssa.UnOp); ok && u.Op == token.MUL {
+			if al, ok := u.X.(*ssa.Alloc); ok {
+				for _, rr := range referrers(al) {
+					if st, ok := rr.(*ssa.Store); ok && st.Addr == al && st.Val == ssa.Value(p) {
+						return true
+					}
+				}
+			}
+		}
+		return false
+	}
+	if isP(v) {
 		return call, true
 	}
-	// captured parameter: *cell where cell holds p
-	if u, ok := v.(*ssa.UnOp); ok && u.Op == token.MUL {
-		if al, ok := u.X.(*ssa.Alloc); ok {
-			for _, rr := range referrers(al) {
-				if st, ok := rr.(*ssa.Store); ok && st.Addr == al && st.Val == ssa.Value(p) {
-					return call, true
-				}
+	// the function value handed to a helper that calls it on every path (reenter(ds, ws, blockFn))
+	if g := call.Call.StaticCallee(); g != nil && g.Blocks != nil {
+		for k, a := range call.Call.Args {
+			if isP(a) && k < len(g.Params) && alwaysCallsParam(g, g.Params[k], 0) {
+				return call, true
+			}
+		}
+	}
+	return nil, false
+}
+
+// alwaysCallsParam: every path from the entry of g to a return calls the function-valued parameter q.
+func alwaysCallsParam(g *ssa.Function, q *ssa.Parameter, depth int) bool {
+	if depth > 2 {
+		return false
+	}
+	calls := func(b *ssa.BasicBlock) bool {
+		for _, in := range b.Instrs {
+			if in == nil {
+				continue
+			}
+			if _, ok := callsParamDepth(in, q, depth+1); ok {
+				return true
+			}
+		}
+		return false
+	}
+	seen := map[*ssa.BasicBlock]bool{}
+	work := []*ssa.BasicBlock{g.Blocks[0]}
+	for len(work) > 0 {
+		b := work[len(work)-1]
+		work = work[:len(work)-1]
+		if seen[b] || calls(b) {
+			continue
+		}
+		seen[b] = true
+		if _, isRet := b.Instrs[len(b.Instrs)-1].(*ssa.Return); isRet {
+			return false
+		}
+		work = append(work, b.Succs...)
+	}
+	return true
+}
+
+func callsParamDepth(in ssa.Instruction, p *ssa.Parameter, depth int) (*ssa.Call, bool) {
+	call, ok := in.(*ssa.Call)
+	if !ok {
+		return nil, false
+	}
+	if call.Call.Value == ssa.Value(p) {
+		return call, true
+	}
+	if g := call.Call.StaticCallee(); g != nil && g.Blocks != nil && depth <= 2 {
+		for k, a := range call.Call.Args {
+			if a == ssa.Value(p) && k < len(g.Params) && alwaysCallsParam(g, g.Params[k], depth) {
+				return call, true
 			}
 		}
 	}
@@ -466,18 +531,66 @@ func ruleC12(c *Ctx) {
 			}
 		}
 	}
-	// releaseCapture: method on clientState that drains the mailbox (a select with default on the mailbox)
-	for _, fn := range c.SrcFuncs() {
-		if fn.Signature.Recv() == nil || !c.isPkgType(fn.Signature.Recv().Type(), "clientState") || fn == captureFn {
-			continue
+	// releaseCapture: the method on clientState that drains the mailbox (a select with default, in the method itself, in a
+	// closure or in a helper method it calls) and resets the blocking state (an atomic operation on clientState.blocked)
+	var drains func(fn *ssa.Function, depth int) bool
+	drains = func(fn *ssa.Function, depth int) bool {
+		if fn == nil || fn.Blocks == nil || depth > 2 {
+			return false
 		}
 		for _, f := range append([]*ssa.Function{fn}, fn.AnonFuncs...) {
 			for _, in := range instrsOf(f) {
 				if s, ok := in.(*ssa.Select); ok && !s.Blocking {
-					releaseFn = fn
+					return true
+				}
+				if call, ok := in.(*ssa.Call); ok {
+					if g := call.Call.StaticCallee(); g != nil && g != fn && g.Signature.Recv() != nil && c.isPkgType(g.Signature.Recv().Type(), "clientState") && drains(g, depth+1) {
+						return true
+					}
 				}
 			}
 		}
+		return false
+	}
+	var touchesStateD func(fn *ssa.Function, depth int) bool
+	touchesStateD = func(fn *ssa.Function, depth int) bool {
+		if fn == nil || fn.Blocks == nil || depth > 2 {
+			return false
+		}
+		for _, f := range append([]*ssa.Function{fn}, fn.AnonFuncs...) {
+			for _, in := range instrsOf(f) {
+				call, ok := in.(*ssa.Call)
+				if !ok {
+					continue
+				}
+				if strings.HasPrefix(fullCalleeName(call), "sync/atomic.") && len(call.Call.Args) > 0 {
+					if fa, ok := call.Call.Args[0].(*ssa.FieldAddr); ok && fieldOf(fa) == fBlocked {
+						return true
+					}
+				}
+				if g := call.Call.StaticCallee(); g != nil && g != fn && g.Signature.Recv() != nil && c.isPkgType(g.Signature.Recv().Type(), "clientState") && touchesStateD(g, depth+1) {
+					return true
+				}
+			}
+		}
+		return false
+	}
+	touchesState := func(fn *ssa.Function) bool { return touchesStateD(fn, 0) }
+	var drainOnly *ssa.Function
+	for _, fn := range c.SrcFuncs() {
+		if fn.Signature.Recv() == nil || !c.isPkgType(fn.Signature.Recv().Type(), "clientState") || fn == captureFn {
+			continue
+		}
+		if drains(fn, 0) {
+			if touchesState(fn) {
+				releaseFn = fn
+			} else {
+				drainOnly = fn
+			}
+		}
+	}
+	if releaseFn == nil {
+		releaseFn = drainOnly
 	}
 	kinds := map[string]int{}
 	for _, st := range a.sel.States {
@@ -699,6 +812,34 @@ func ruleC12Deadline(c *Ctx) {
 		}
 		n++
 		key := fmt.Sprintf("%s:timer#%d", fnName(a.selectFn), n)
+		// the timer may be made by a helper (armWaitTimer(deadline)): the creation inside the helper is judged, and a
+		// duration the helper receives as a parameter is followed to the helper's call site
+		paramArg := map[*ssa.Parameter]ssa.Value{}
+		for d := 0; call != nil && d < 3; d++ {
+			g := call.Call.StaticCallee()
+			if g == nil || !c.InPkg(g) || g.Blocks == nil {
+				break
+			}
+			var inner *ssa.Call
+			for _, b := range g.Blocks {
+				if ret, ok := b.Instrs[len(b.Instrs)-1].(*ssa.Return); ok && len(ret.Results) > 0 {
+					for _, leaf := range phiLeaves(ret.Results[0], map[ssa.Value]bool{}) {
+						if ic, ok := leaf.(*ssa.Call); ok {
+							inner = ic
+						}
+					}
+				}
+			}
+			if inner == nil {
+				break
+			}
+			for i, p := range g.Params {
+				if i < len(call.Call.Args) {
+					paramArg[p] = call.Call.Args[i]
+				}
+			}
+			call = inner
+		}
 		if call == nil || len(call.Call.Args) == 0 {
 			c.S.Undecided("R-C12-deadline", key, c.Pos(a.sel.Pos()), "the creation of the wait timer could not be found")
 			continue
@@ -728,6 +869,8 @@ func ruleC12Deadline(c *Ctx) {
 				walk(x.X, d+1)
 			case *ssa.ChangeType:
 				walk(x.X, d+1)
+			case *ssa.Parameter:
+				walk(paramArg[x], d+1)
 			case *ssa.Phi:
 				for _, e := range x.Edges {
 					walk(e, d+1)
@@ -919,7 +1062,16 @@ func ruleC11UnlinkAll(c *Ctx) {
 					continue
 				}
 				for _, v := range []ssa.Value{bo.X, bo.Y} {
-					if base, f := loadedField(v); f == fHead && base == ssa.Value(p) {
+					// the tested value is the signal's list head on every way into the test
+					// (`for ws.objectsHead != nil` as well as `for ref := ws.objectsHead; ref != nil; ref = ws.objectsHead`)
+					leaves := phiLeaves(v, map[ssa.Value]bool{})
+					all := len(leaves) > 0
+					for _, lf := range leaves {
+						if base, f := loadedField(lf); f != fHead || base != ssa.Value(p) {
+							all = false
+						}
+					}
+					if all && !isNilConst(v) {
 						full[fn] = pi
 					}
 				}
